@@ -20,16 +20,17 @@ import (
 func init() { props["C10"] = runC10 }
 
 type waitCase struct {
-	kind     string
-	limit    int
-	waiters  int
-	outcome  int           // holder's completion outcome
-	lateBy   time.Duration // the holder sleeps this long before completing (0 = races with the waiters)
-	prop     string
-	holders2 bool // both holders complete (limit 2)
-	noTimer  bool // queue kinds: MaxBacklogTimeout < 0, the waiter selects on a nil timer channel
-	eager    bool // timeouts may fire at any point: a waiter gives up while it is being handed the token; the one behind it must be served
-	abandon  bool // waiter 0 is cancelled at 10 ms and leaves (its helper stays parked on the condition); the others must still be woken
+	kind       string
+	limit      int
+	waiters    int
+	outcome    int           // holder's completion outcome
+	lateBy     time.Duration // the holder sleeps this long before completing (0 = races with the waiters)
+	prop       string
+	holders2   bool // both holders complete (limit 2)
+	noTimer    bool // queue kinds: MaxBacklogTimeout < 0, the waiter selects on a nil timer channel
+	eager      bool // timeouts may fire at any point: a waiter gives up while it is being handed the token; the one behind it must be served
+	cancelRace bool // waiter 0's context is cancelled concurrently with the release (eviction-on-cancel kinds): the waiter behind it must still be served
+	abandon    bool // waiter 0 is cancelled at 10 ms and leaves (its helper stays parked on the condition); the others must still be woken
 }
 
 // waitState is the ghost state shared by the threads of one execution.
@@ -164,7 +165,7 @@ func waitScenario(cs waitCase) *mc.Scenario {
 	name := fmt.Sprintf("%s/wake/%s", cs.prop, cs.kind)
 	return &mc.Scenario{
 		Name:   name,
-		Params: fmt.Sprintf("limit=%d waiters=%d holder-outcome=%s late=%v both-holders=%v no-backlog-timeout=%v first-waiter-abandons=%v eager-clock=%v", cs.limit, cs.waiters, outcomeNames[cs.outcome], cs.lateBy, cs.holders2, cs.noTimer, cs.abandon, cs.eager),
+		Params: fmt.Sprintf("limit=%d waiters=%d holder-outcome=%s late=%v both-holders=%v no-backlog-timeout=%v first-waiter-abandons=%v eager-clock=%v cancel-races-release=%v", cs.limit, cs.waiters, outcomeNames[cs.outcome], cs.lateBy, cs.holders2, cs.noTimer, cs.abandon, cs.eager, cs.cancelRace),
 		Cfg:    vrt.Config{Events: true, MaxSteps: 4000, EagerClock: cs.eager, Horizon: int64(10 * time.Second)},
 		Body: func(x *mc.Exec) {
 			so := stackOpts{}
@@ -206,6 +207,11 @@ func waitScenario(cs waitCase) *mc.Scenario {
 					c2, cancel := vctx.WithCancel(wctx)
 					wctx = c2
 					ths = append(ths, vrt.GoL("X", func() { vtime.Sleep(10 * time.Millisecond); cancel() }))
+				}
+				if cs.cancelRace && i == 0 {
+					c2, cancel := vctx.WithCancel(wctx)
+					wctx = c2
+					ths = append(ths, vrt.GoL("X", func() { cancel() }))
 				}
 				t := vrt.GoL(fmt.Sprintf("W%d", i), func() {
 					if cs.abandon && i > 0 {
@@ -267,7 +273,7 @@ func waitScenario(cs waitCase) *mc.Scenario {
 			if r.Stuck && !x.Failed() {
 				x.Fail("stuck", "execution deadlocked: %v", r.StuckInfo)
 			}
-			if cs.lateBy == 0 && !x.Failed() && !cs.eager {
+			if cs.lateBy == 0 && !x.Failed() && !cs.eager && !cs.cancelRace {
 				// first variant: everybody is served without any virtual time elapsing
 				if ws, _ := x.Aux.(*waitState); ws != nil {
 					for i, g := range ws.granted {
@@ -315,6 +321,13 @@ func runC10(c *Ctx) {
 	// a waiter's timeout fires at any point of the hand-off: whoever is behind it must not be stranded
 	for _, kind := range []string{"queue-fifo", "queue-lifo"} {
 		c.Explore(waitScenario(waitCase{prop: "C10", kind: kind, limit: 1, waiters: 2, outcome: 0, eager: true}), mc.Options{PreemptBound: c.Pick(2, 3)})
+	}
+	// a waiter's context is cancelled while the release is under way (eviction on cancel): the release
+	// must not be spent on the departing caller while somebody else waits
+	for _, kind := range []string{"queue-fifo-evict", "queue-lifo-evict"} {
+		for outcome := 0; outcome < 3; outcome++ {
+			c.Explore(waitScenario(waitCase{prop: "C10", kind: kind, limit: 1, waiters: 2, outcome: outcome, cancelRace: true}), opt)
+		}
 	}
 	// an abandoned waiter's helper is still parked on the condition when the release arrives: the
 	// wake-up must reach the live waiter whatever the outcome of the release
